@@ -259,6 +259,25 @@ def run_case(spec, lines, out):
             df = to_index(df, idcols, lay, rnd, info)
             if lay.get("csv"):
                 df = csv_roundtrip(df, lay, info)
+            via = lay.get("via") if (lay.get("index") == "none" and not lay.get("csv") and op.get("target") != "existing") else None
+            reader = None
+            if via:
+                # through the parameter readers: the file is written here, read by the reader; the model
+                # sees the frame a plain pandas read of that file gives
+                import tempfile
+                from flodym.data_reader import CSVParameterReader, ExcelParameterReader
+                tmpd = tempfile.mkdtemp(prefix="flodym_verif_table_")
+                df = df.reset_index(drop=True)
+                if via == "csvreader":
+                    path = os.path.join(tmpd, "p.csv")
+                    df.to_csv(path, index=False)
+                    df = pd.read_csv(path)
+                    reader = CSVParameterReader({"p": path}, allow_missing_values=bool(op["miss"]), allow_extra_values=bool(op["extra"]))
+                else:
+                    path = os.path.join(tmpd, "p.xlsx")
+                    df.to_excel(path, index=False)
+                    df = pd.read_excel(path)
+                    reader = ExcelParameterReader({"p": path}, allow_missing_values=bool(op["miss"]), allow_extra_values=bool(op["extra"]))
             ser = ser_df(df)
         except Exception as e:          # the harness could not build this layout: skip the op
             emit(f"note skipped {type(e).__name__}", "ok")
@@ -289,7 +308,10 @@ def run_case(spec, lines, out):
             h = f"${nxt}"; nxt += 1
             line = f"fromdf {h} $100 {m} {e} {ser}"
             try:
-                res = FlodymArray.from_df(dims, df, allow_missing_values=bool(m), allow_extra_values=bool(e))
+                if reader is not None:
+                    res = reader.read_parameter_values("p", dims)
+                else:
+                    res = FlodymArray.from_df(dims, df, allow_missing_values=bool(m), allow_extra_values=bool(e))
                 impl.objs[impl.h(h)] = res
                 emit(line, "ok " + fmt_arr(res))
             except Exception:
@@ -297,6 +319,9 @@ def run_case(spec, lines, out):
         # the frame handed in is left as it was
         same = before.equals(df) and list(before.columns) == list(df.columns) and before.index.equals(df.index)
         emit("note input_unchanged", "ok" if same else "CHANGED")
+        if reader is not None:
+            import shutil
+            shutil.rmtree(tmpd, ignore_errors=True)
 
 
 def run(specs):
